@@ -10,6 +10,13 @@ COMMON_NOTE = ('Trusted base: z3 4.x/5.1 (python3-vt), the symx forking engine, 
                'reals), sizes beyond the stated bounds, GPU, complex dtypes. ')
 
 CHECKS = {
+ 'C05': dict(
+    text='factorize_rule / factorize_hrg / factorize_fgg run on grammars with large right-hand sides; on every path the structural obligations are checked (requested method reaches tree_decomposition, fresh distinct names, no rule widened, '
+         'inlining the fresh nonterminals reproduces the original rule with every edge exactly once and nodes shared only through externals) and the solver decides that sum_product of the factorized FGG equals that of the original for all factor weights, per cell. '
+         'Right level: a lost, duplicated or re-attached edge changes the sum-product polynomial, which the solver compares for all values at once.',
+    note='Bounds: rules with <=5 nodes, <=5 edges of arity 0-3, <=2 externals, <=26 weights; hand-written shapes + seeded family; 3 methods; 4 semirings (T regime Viterbi/Bool, positive weights Real/Log). '
+         'Name freshness is checked on the names the run produces (no symbolic-string exploration of unique_label_name).',
+    technique='symbolic execution + SMT equivalence of sum-products (z3); structural inlining check per path', design='5/C05'),
  'C10': dict(
     text='The adjacency matrix of the input graph is a vector of solver variables and the symbolic executor partitions the whole space of graphs up to the vertex bound; on every path the real tree_decomposition / min_fill / quickbb / minor_min_width code runs '
          'and the result is checked for validity (tree, vertex and edge cover, running intersection); optimality of acb and quickbb and the bracket lower <= tw <= upper are judged against an independent SMT treewidth oracle (ordering-based encoding). '
